@@ -191,6 +191,10 @@ func registerIntrinsics(ex *Executor) {
 		st.Interleave = args[0].(*smt.Term).IsTrue()
 		return nil, cNext
 	}
+	I["@verifGoOrder"] = func(ex *Executor, st *State, cc *CallCtx, args []Val) (Val, ctl) {
+		st.GoOrder = args[0].(*smt.Term).IsTrue()
+		return nil, cNext
+	}
 	I["@verifBackground"] = func(ex *Executor, st *State, cc *CallCtx, args []Val) (Val, ctl) {
 		return nil, cNext
 	}
